@@ -16,6 +16,7 @@ import PermuteVerif.Model.QA
 import PermuteVerif.Model.Incidence
 import PermuteVerif.Model.Experiment
 import PermuteVerif.Model.Prng
+import PermuteVerif.Model.Nan
 open PV
 
 abbrev P := Except String
@@ -225,6 +226,14 @@ def handle (line : String) : P String := do
       let (o, args) := stratTwoSample (← pList pInt g) (← pList pRat r) st (← pAlt alt) (← pBool p1)
         (← pList3 pNat draws)
       pure (showST o ++ "|args=" ++ showList2 showRat args)
+  | ["strat2nan", alt, p1, g, r, ntreat, draws] => do
+      let nt ← pNat ntreat
+      let pOpt : String → P (Option Rat) := fun t => if t = "nan" then pure none else (do pure (some (← pRat t)))
+      let showO : Option Rat → String := fun o => match o with | none => "nan" | some v => showRat v
+      let (o, args) := stratTwoSampleNan (← pList pInt g) (← pList pOpt r) (nanMeanDiff nt) (← pAlt alt) (← pBool p1)
+        (← pList3 pNat draws)
+      pure (s!"p={showRat o.p}|up={o.hitsUp}|dn={o.hitsDn}|obs={showO o.obs}|dist={" ".intercalate (o.dist.map showO)}"
+        ++ "|args=" ++ showList2 showO args)
   | ["stratmean2", g, c, r] =>
       pure (showRat (stratMean2 (← pList pInt g) (← pList pInt c) (← pList pRat r)))
   | ["computets", m] => do
